@@ -4,11 +4,42 @@ package main
 import (
 	"encoding/json"
 	"fmt"
+	"sort"
+	"strings"
 	"time"
 
 	"verifharness/chainenv"
 	"verifharness/lib"
 )
+
+// poisonKinds classifies the clause-(ii) problems of a case (used in the witness shape).
+func poisonKinds(ps []string) string {
+	m := map[string]bool{}
+	for _, p := range ps {
+		switch {
+		case strings.HasPrefix(p, "after rejection, block-by-hash"):
+			m["serves-rejected-body-before-genuine"] = true
+		case strings.HasPrefix(p, "genuine block (h="):
+			m["genuine-not-accepted"] = true
+		case strings.HasPrefix(p, "genuine block not served"):
+			m["genuine-not-served"] = true
+		case strings.HasPrefix(p, "block-by-hash"):
+			m["serves-wrong-body-after-genuine"] = true
+		case strings.HasPrefix(p, "persisted body"):
+			m["persisted-wrong-body-after-genuine"] = true
+		case strings.HasPrefix(p, "child of the genuine"):
+			m["child-not-accepted"] = true
+		default:
+			m["other"] = true
+		}
+	}
+	var l []string
+	for k := range m {
+		l = append(l, k)
+	}
+	sort.Strings(l)
+	return strings.Join(l, "+")
+}
 
 func run(c *lib.Ctx) {
 	c.Rule("a valid 14-block trunk plus a heavier 2-block side branch is built without mining; each case starts a fresh real node, feeds a valid prefix, snapshots query surface + raw DB, delivers ONE mutant " +
@@ -34,6 +65,9 @@ func run(c *lib.Ctx) {
 					cases = append(cases, chainenv.InvCase{Kind: k, Pos: pos, Broadcast: bc, Seed: rng.U64(), Index: idx})
 					idx++
 				}
+				// the fast-download delivery path (pid "download")
+				cases = append(cases, chainenv.InvCase{Kind: k, Pos: pos, Download: true, Seed: rng.U64(), Index: idx})
+				idx++
 			}
 		}
 		workers := 16
@@ -71,8 +105,8 @@ func run(c *lib.Ctx) {
 					c.Count("skipped_not_applicable", 1)
 					continue
 				}
-				fp := fmt.Sprintf("%s/%s/%v/%s", r.Case.Kind, r.Case.Pos, r.Case.Broadcast, r.MutantHash[:8])
-				c.Case(fp, r.DeliverErr != "" || r.SameHash, map[string]any{"kind": r.Case.Kind, "pos": r.Case.Pos, "broadcast": r.Case.Broadcast, "same_hash_as_genuine": r.SameHash, "deliver_err": r.DeliverErr})
+				fp := fmt.Sprintf("%s/%s/%v/%v/%s", r.Case.Kind, r.Case.Pos, r.Case.Broadcast, r.Case.Download, r.MutantHash[:8])
+				c.Case(fp, r.DeliverErr != "" || r.SameHash, map[string]any{"kind": r.Case.Kind, "pos": r.Case.Pos, "broadcast": r.Case.Broadcast, "download_path": r.Case.Download, "same_hash_as_genuine": r.SameHash, "deliver_err": r.DeliverErr})
 				c.Count("mutants_delivered", 1)
 				if r.SameHash {
 					c.Count("mutants_with_genuine_hash", 1)
@@ -83,7 +117,7 @@ func run(c *lib.Ctx) {
 						"rejected mutant %s (%s, broadcast=%v, err=%q) changed node state: %s", r.Case.Kind, r.Case.Pos, r.Case.Broadcast, r.DeliverErr, lib.ShortList(r.SideEffects, 4))
 				}
 				if len(r.Poison) > 0 {
-					c.Violation(r.Case.Index, fmt.Sprintf("poison/samehash=%v/genuine-err=%s", r.SameHash, r.GenuineErr), r,
+					c.Violation(r.Case.Index, fmt.Sprintf("poison/samehash=%v/download=%v/genuine-err=%s/%s", r.SameHash, r.Case.Download, r.GenuineErr, poisonKinds(r.Poison)), r,
 						"mutant %s (%s, broadcast=%v, same hash=%v, err=%q): %s", r.Case.Kind, r.Case.Pos, r.Case.Broadcast, r.SameHash, r.DeliverErr, lib.ShortList(r.Poison, 3))
 				}
 			}
